@@ -281,6 +281,11 @@ impl Segments {
         }
     }
 
+    /// SND.UNA: the first sequence number that is not yet acknowledged.
+    pub fn snd_una(&self) -> SeqNr {
+        self.snd_una
+    }
+
     pub fn total_len_packets(&self) -> usize {
         self.segments.len()
     }
